@@ -39,7 +39,7 @@ Definition js_target_text (fm : bool) (en : env) (props : list string) (t : targ
   | TLoc i => pp_js (js_var fm (name_of (nth i (e_locals en) (Leaf KLocal "" 0 true))))
   | TPar i => pp_js (js_var fm (name_of (nth i (e_params en) (Leaf KParam "" 0 true))))
   | TGlob n => "_global." ++ nm en n
-  | TProp n => if mem_str (nm en n) props then (if fm then "this" else "me") ++ "." ++ nm en n else pp_js (js_prop fm (nm en n))
+  | TProp n | TByName n => if mem_str (nm en n) props then (if fm then "this" else "me") ++ "." ++ nm en n else pp_js (js_prop fm (nm en n))
   end.
 
 Definition js_stmt_text (fm : bool) (en : env) (props : list string) (s : stmt) : string :=
@@ -91,12 +91,13 @@ Proof.
     change (String.eqb "assign" "assign") with true. cbn iota.
     rewrite (gen_js_is_pp fm en e He).
     assert (Htt : gen_js (target_node en props (pc + zlen (compile_e e))%Z t) ind fm = js_target_text fm en props t).
-    { destruct t as [i|i|n|n]; cbn [target_node js_target_text].
+    { destruct t as [i|i|n|n|n]; cbn [target_node js_target_text].
       - destruct (nth i (e_locals en) (Leaf KLocal "" 0 true)); try contradiction. destruct k; try contradiction.
         cbn [gen_js js_leaf name_of]. unfold js_var. destruct (fm && String.eqb name "me"); reflexivity.
       - destruct (nth i (e_params en) (Leaf KParam "" 0 true)); try contradiction. destruct k; try contradiction.
         cbn [gen_js js_leaf name_of]. unfold js_var. destruct (fm && String.eqb name "me"); reflexivity.
       - reflexivity.
+      - destruct (mem_str (nm en n) props); [|reflexivity]. cbn [gen_js js_leaf]. destruct fm; reflexivity.
       - destruct (mem_str (nm en n) props); [|reflexivity]. cbn [gen_js js_leaf]. destruct fm; reflexivity. }
     rewrite Htt. unfold js_line. reflexivity.
   - destruct Hok as [Hp Hl]. cbn [reify_s js_stmt_text]. destruct (reify_args en pc args) as [ns pa] eqn:Er.
